@@ -27,6 +27,12 @@ def judge(ctx, proto, job, r):
             return
 
 
+def sample(ctx, proto, pairs):
+    ok = [p for p in pairs if "res" in p[1] and p[1]["res"]]
+    last = ok[len(ok) // 3]
+    ctx.sample({"proto": proto, "history": last[0]["msgs"], "outcome": [x["st"] for x in last[1]["res"]]})
+
+
 def check(ctx):
     thorough = ctx.tier == "thorough"
     ctx.rule = ("TLC enumerates datagram histories at the grammar boundaries (spec/*Fuzz.tla: every 16-bit field and every octet "
@@ -39,8 +45,8 @@ def check(ctx):
     ctx.assumptions += ["universal quantification over all byte strings is explored, not enumerated",
                         "a watchdog 'hang' is judged by C02, not here"]
     n = 200000 if thorough else 20000
-    pairs = fuzzrun.ipfix(ctx, thorough, n)
-    for job, r in pairs:
-        judge(ctx, "ipfix", job, r)
-    LAST = pairs[len(pairs) // 3]
-    ctx.sample({"proto": "ipfix", "history": LAST[0]["msgs"], "outcome": [x["st"] for x in LAST[1].get("res", [])]})
+    for proto in ("ipfix", "v9"):
+        pairs = fuzzrun.flow(ctx, proto, thorough, n, measure=False)
+        for job, r in pairs:
+            judge(ctx, proto, job, r)
+        sample(ctx, proto, pairs)
